@@ -1038,6 +1038,9 @@ func DecodeZigZag32(p []byte) (v int32, n int, err error) {
 	if n == 0 {
 		return 0, 0, ErrInvalidVarintData
 	}
+	if dv > math.MaxUint32 {
+		return 0, 0, ErrValueOverflow
+	}
 	dv = uint64((uint32(dv) >> 1) ^ uint32((int32(dv&1)<<31)>>31))
 	return int32(dv), n, nil
 }
